@@ -729,6 +729,13 @@ func (e *CEnv) evalIdent(name string) (Value, types.Type) {
 			return typeV{tn.Type()}, nil
 		}
 	}
+	if e.pkg != nil {
+		for _, imp := range e.pkg.Imports() {
+			if imp.Name() == name {
+				return pkgV{imp}, nil
+			}
+		}
+	}
 	if name == "wide" {
 		return typeV{wideType}, nil
 	}
